@@ -67,10 +67,11 @@ class Harness:
         self.function = function      # function(s) of /repo under contract
         self.bounded = bounded
         self.text = text
+        self.expect_panic = expect_panic  # the call under test must not return: decided by an UNREACHABLE cover
 
 
 class KaniJob:
-    def __init__(self, prop, features="std", unwind=None, timeout=900, jobs=8):
+    def __init__(self, prop, features="std", unwind=None, timeout=900, jobs=8, harness_timeout=None):
         self.prop = prop
         self.features = features
         self.timeout = timeout
@@ -80,6 +81,7 @@ class KaniJob:
         self.macro_appends = []  # (relfile, macro_name, text)  inserted before the closing brace of the arm body
         self.harnesses = []
         self.extra_flags = []
+        self.harness_timeout = harness_timeout or max(60, timeout - 120)
         self.scratch = None
         self.log = ""
 
@@ -161,7 +163,8 @@ class KaniJob:
         if playback:
             cmd += ["-Z", "concrete-playback", "--concrete-playback=print"]
         else:
-            cmd += ["--export-json", out_json, "-j", str(self.jobs), "--output-format", "terse"]
+            cmd += ["--export-json", out_json, "-j", str(self.jobs), "--output-format", "terse",
+                    "--harness-timeout", "%ds" % self.harness_timeout]
         cmd += self.extra_flags
         for n in names:
             cmd += ["--harness", n]
@@ -193,7 +196,7 @@ class KaniJob:
         results = {r["harness_id"]: r for r in data["verification_results"]["results"]}
         stats = {c["harness_id"]: c.get("cbmc_stats", {}) for c in data.get("cbmc", [])}
         for h in self.harnesses:
-            hid = [k for k in results if k.split("::")[-1] == h.name or k.endswith("::" + h.name)]
+            hid = [k for k in results if k == h.name or k.endswith("::" + h.name)]
             if len(hid) != 1:
                 obs.append(Obligation(h.obligation, h.function, "cbmc-6.11/cadical", UNDECIDED, 0,
                                       "harness %s not found in Kani results (%d matches)" % (h.name, len(hid)),
@@ -208,6 +211,10 @@ class KaniJob:
         secs = res.get("duration_ms", 0) / 1000.0
         counted = [c for c in checks if not _ignored_check(c)]
         covers = [c for c in counted if c.get("category") == "cover"]
+        must_not = [c for c in covers if "UNREACHABLE:" in c.get("description", "")]
+        covers = [c for c in covers if c not in must_not]
+        if h.expect_panic:
+            return self._classify_panic(h, hid, res, covers, must_not)
         asserts = [c for c in counted if c.get("category") != "cover"]
         failed = [c for c in asserts if c["status"] == "Failure"]
         unwind_fail = [c for c in failed if c.get("category") == "unwind" or "unwinding assertion" in c.get("description", "")]
@@ -254,6 +261,32 @@ class KaniJob:
                                           "%d cover(s) satisfied" % len(covers), bounded=h.bounded, kind="vacuity"))
         return out
 
+    def _classify_panic(self, h, hid, res, covers, must_not):
+        """The operation must panic on every path: the cover placed after it must be unreachable."""
+        secs = res.get("duration_ms", 0) / 1000.0
+        backend = "cbmc-6.11/cadical"
+        text = h.text or ("kani harness %s: cover after the call must be unreachable" % hid)
+        out = []
+        if not must_not or not covers:
+            return [Obligation(h.obligation, h.function, backend, UNDECIDED, secs,
+                               "expect_panic harness lacks its covers", bounded=h.bounded, text=text)]
+        reached = [c for c in must_not if c["status"] in ("Satisfied", "Success")]
+        unknown = [c for c in must_not if c["status"] not in ("Satisfied", "Success", "Unsatisfiable", "Unreachable", "Failure")]
+        if reached:
+            out.append(Obligation(h.obligation, h.function, backend, REFUTED, secs,
+                                  "statement after the call is reachable: " + reached[0]["description"],
+                                  cex={"note": "cover satisfied"}, bounded=h.bounded, text=text))
+        elif unknown:
+            out.append(Obligation(h.obligation, h.function, backend, UNDECIDED, secs,
+                                  "cover status " + unknown[0]["status"], bounded=h.bounded, text=text))
+        else:
+            out.append(Obligation(h.obligation, h.function, backend, DISCHARGED, secs,
+                                  "post-call cover %s" % must_not[0]["status"], bounded=h.bounded, text=text))
+        bad = [c for c in covers if c["status"] not in ("Satisfied", "Success")]
+        out.append(Obligation(h.obligation + ".cover", h.function, backend, UNDECIDED if bad else DISCHARGED, 0,
+                              "pre-call cover " + ("not satisfied" if bad else "satisfied"), bounded=h.bounded, kind="vacuity"))
+        return out
+
     def _playback(self, root, h):
         """Second run of the failing harness with concrete playback; decode kani::any() byte vectors."""
         rc, out, secs = run(self._cmd(root, [h.name], None, playback=True), min(self.timeout, 600), cwd=root)
@@ -266,8 +299,7 @@ class KaniJob:
             m = re.search(r"let concrete_vals: Vec<Vec<u8>> = vec!\[(.*?)\];", blk, re.S)
             if not m:
                 continue
-            if kind and kind.group(1) == "cover":
-                continue
+            is_cover = bool(kind and kind.group(1) == "cover")
             vals = []
             for cm, vec in re.findall(r"//\s*(.*?)\n\s*vec!\[([0-9,\s]*)\]", m.group(1)):
                 bs = bytes(int(x) for x in vec.replace(" ", "").split(",") if x != "")
@@ -279,10 +311,13 @@ class KaniJob:
                 elif len(bs) in (1, 2, 4):
                     rec["as_uint"] = int.from_bytes(bs, "little")
                 vals.append(rec)
-            tests.append({"check": (kind.group(2)[:200] if kind else ""), "values": vals})
+            tests.append({"check": (kind.group(2)[:200] if kind else ""), "values": vals, "cover": is_cover})
+        # failed-check traces first; traces of satisfied covers are only candidates (the replay decides)
+        tests.sort(key=lambda t: t["cover"])
         if not tests:
             return {"playback": "none printed"}
         return {"playback_values": tests[0]["values"], "failed_check": tests[0]["check"],
+                "candidate_from_cover_trace": tests[0]["cover"],
                 "other_playbacks": tests[1:4], "harness": h.name}
 
 
